@@ -44,6 +44,7 @@ pub fn history_profile() -> Profile {
     p.w_resume = 4;
     p.w_config = 2;
     p.w_stray = 0;
+    p.sweep = true;
     p
 }
 
@@ -107,6 +108,22 @@ pub fn check_c10_case(c: &C10Case, agg: &mut Agg) -> Result<(), String> {
         if !e.m.halted {
             return Ok(());
         }
+    }
+    // ---- resume exactness from this state and from the ownerless-stake state (LST total 0, staked total > 0):
+    // two resumes in a row, the engine compares the raw state and config records around each
+    {
+        let mut z = e.clone();
+        let k = c.probes.len() as u32;
+        for mode in [ResumeMode::ZeroLst, ResumeMode::Raw(3 + k, 2 + k % 3, k), ResumeMode::Zero, ResumeMode::Same] {
+            z.run_op(&Op::Resume { user: Caller::Admin, mode });
+            if let Some(m) = own(&z) {
+                return Err(format!("resume sequence after the history: {m}"));
+            }
+            if z.viol.is_some() {
+                break;
+            }
+        }
+        *agg.counters.entry("resume_sequences".into()).or_insert(0) += 1;
     }
     let mut successes = 0;
     let mut trace = String::new();
